@@ -1,6 +1,9 @@
 use std::fmt::Debug;
 use std::ops::DerefMut;
-use std::{collections::HashMap, ops::Deref};
+use std::{
+    collections::{HashMap, HashSet},
+    ops::Deref,
+};
 
 use defm::{Defm, DefmId};
 use defset::{Defset, DefsetId};
@@ -42,6 +45,7 @@ pub struct SymbolMap {
     name_to_multiclass: HashMap<EcoString, MulticlassId>,
     name_to_defset: HashMap<EcoString, DefsetId>,
     name_to_defm: HashMap<EcoString, DefmId>,
+    defm_record_names: HashSet<EcoString>,
     file_to_symbol_list: HashMap<FileId, Vec<SymbolId>>,
     pos_to_symbol_map: HashMap<FileId, IntervalMap<TextSize, SymbolId>>,
 }
@@ -145,6 +149,33 @@ impl SymbolMap {
 
     pub fn find_defm(&self, name: &EcoString) -> Option<DefmId> {
         self.name_to_defm.get(name).copied()
+    }
+
+    /// The names, relative to an instantiating defm, of the records that the multiclass and the
+    /// multiclasses it inherits from define.
+    pub fn record_names_of_multiclass(&self, multiclass_id: MulticlassId) -> Vec<EcoString> {
+        let mut names = Vec::new();
+        let mut visited = HashSet::new();
+        let mut stack = vec![multiclass_id];
+        while let Some(id) = stack.pop() {
+            if !visited.insert(id) {
+                continue;
+            }
+            let multiclass = self.multiclass(id);
+            names.extend(multiclass.record_name_list.iter().cloned());
+            stack.extend(multiclass.parent_list.iter().copied());
+        }
+        names
+    }
+
+    /// `name` is the name of a record that a defm defines (the name of the defm followed by what
+    /// the record is called in the multiclass).
+    pub fn add_defm_record_name(&mut self, name: EcoString) {
+        self.defm_record_names.insert(name);
+    }
+
+    pub fn is_defm_record_name(&self, name: &EcoString) -> bool {
+        self.defm_record_names.contains(name)
     }
 
     pub fn defm(&self, defm_id: DefmId) -> &Defm {
